@@ -1,100 +1,53 @@
 /-
   C27 — Authorization holds for every (multi-statement) program.
-  Model: ILV.Model.Handler.execProgram (= `Handler::execute_program`, handler.rs:4248) whose trace lists
-  every statement that ran together with the KG that was current when it ran. Spec: ILV.Spec.Access.allowed
-  (permission tables of C28 + the ACL rows of the state before the call). Grammar `P` is a parameter.
+  Model: ILV.Model.Handler.execProgram = the repaired `Handler::execute_program`: `authorize_program`
+  applies the global gate, the `_internal` gate and the per-KG gate to every logical line — the same
+  `parse_statement(line)` the executor uses, with the running KG followed through `.kg use/create/drop` —
+  before anything runs. Spec: ILV.Spec.Access.allowed (C28 tables + ACL rows of the state before the call).
 -/
 import ILV.Lemmas.C27
 namespace ILV.Props.C27
 open ILV ILV.Text ILV.Handler ILV.Gen.C28 ILV.Spec.Access
 
-/-- **C27, full statement**: whatever the program text, every statement a request of identity `(u, r)`
-    runs is permitted to `(u, r)` on the KG it acts on. -/
-def C27_statement : Prop :=
-  ∀ (P : Parser) (w : World) (rq : Req) (u : String) (r : Role),
-    identityOf w rq.user = some (some (u, r)) → ∀ e ∈ (execProgram P w rq).trace, allowed w u r e = true
-
-/-! witnesses: user `vi` is a global viewer, KG viewer of `default`, without any role on `kga` -/
-def witP : Parser := fun k =>
-  if k = "+m1(7)" then some ⟨.insert, .insert "m1" [[.i64 7]]⟩
-  else if k = "?m1(X)" then some ⟨.query, .query "m1" 1⟩ else none
-def witW : World :=
-  ⟨[⟨"_internal", [("users", [[strVal "vi", strVal "h", strVal "viewer"]]),
-                   ("kg_acls", [[strVal "default", strVal "vi", strVal "viewer"]])], [], []⟩,
-    ⟨"default", [("m1", [[.i64 0]])], [], []⟩, ⟨"kga", [("m1", [[.i64 0]])], [], []⟩],
-   [⟨"vi", "kga", [], [], false⟩]⟩
-/-- whole text does not parse as one statement → no gate runs; line 1 inserts -/
-def rqUnparsed : Req := ⟨some "vi", false, some "default", "+m1(7)\n?m1(X)".toList⟩
-/-- `strip_inline_comment` cuts the whole text at `//` → the gates see a query; line 2 inserts -/
-def rqCommentCut : Req := ⟨some "vi", false, some "default", "?m1(X) // hi\n+m1(7)".toList⟩
-/-- explicit KG `default` is gated, but `query_program_with_session` reads the session's KG `kga` -/
-def rqSessionKgArg : Req := ⟨some "vi", true, some "default", "?m1(X)".toList⟩
-/-- neither a KG nor a session: no per-KG gate, execution falls back to `default` -/
-def rqNoTarget : Req := ⟨some "vi", false, none, "+m1(7)".toList⟩
-
-theorem C27_refuted : ¬ C27_statement := by
-  intro h
-  have h1 := h witP witW rqUnparsed "vi" .viewer (by decide)
-  revert h1
-  decide
-
-/-- the "in particular" clause fails with it: the KG viewer's request is accepted and `default` changes -/
-theorem C27_refuted_state :
-    (execProgram witP witW rqUnparsed).res = .rows [[.i64 0], [.i64 7]] ∧
-    (findKg (execProgram witP witW rqUnparsed).w "default").map (relOf · "m1") = some [[.i64 0], [.i64 7]] := by decide
-
-theorem C27_refuted_comment_cut :
-    ∃ e ∈ (execProgram witP witW rqCommentCut).trace, allowed witW "vi" .viewer e = false ∧ e.stmt.kind = .insert := by decide
-
-theorem C27_refuted_session_kgarg :
-    ∃ e ∈ (execProgram witP witW rqSessionKgArg).trace, allowed witW "vi" .viewer e = false ∧ e.kg = "kga" := by decide
-
-theorem C27_refuted_no_target :
-    ∃ e ∈ (execProgram witP witW rqNoTarget).trace, allowed witW "vi" .viewer e = false ∧ e.kg = "default" := by decide
-
-/-- **gates agree** (single-line requests): the statement that runs *is* the statement the gates saw
-    (same grammar, same text), it runs in the KG the gates checked, and the gates passed on it. -/
-theorem C27_gates_agree (P : Parser) (w : World) (rq : Req) (cur : String)
-    (h1 : singleLine rq = true) (h2 : sessionQueryWithKgArg w rq = false) (h3 : curKgOf w rq = some cur) :
-    ∀ e ∈ (execProgram P w rq).trace,
-      e.kg = cur ∧ parseStatement P (trim rq.text) = some e.stmt ∧
-      ∃ role, identityOf w rq.user = some role ∧ gates w role (some e.stmt) (some cur) = none :=
-  exec_trace_single P w rq cur h1 h2 h3
-
-/-- **C27, partial theorem.** Outside three named input classes — more than one physical line
-    (`singleLine`), a `?…` request carrying both a session id and an explicit KG
-    (`sessionQueryWithKgArg`), no explicit KG and no live session (`noTargetKg`) — every statement that
-    runs is permitted: for all grammars, states, identities, ACLs, sessions and texts. -/
-theorem C27_partial (P : Parser) (w : World) (rq : Req) (u : String) (r : Role)
-    (hid : identityOf w rq.user = some (some (u, r)))
-    (h1 : singleLine rq = true) (h2 : sessionQueryWithKgArg w rq = false) (h3 : noTargetKg w rq = false) :
+/-- **C27.** Whatever the program text (any number of statements, comments, continuation lines, graph
+    switches), the identity, the ACLs, the session binding and the KG argument: every statement a request
+    of identity `(u, r)` runs is permitted to `(u, r)` on the KG it acts on at the moment it runs. -/
+theorem C27 (P : Parser) (w : World) (rq : Req) (u : String) (r : Role)
+    (hid : identityOf w rq.user = some (some (u, r))) :
     ∀ e ∈ (execProgram P w rq).trace, allowed w u r e = true := by
   intro e he
-  cases hc : curKgOf w rq with
-  | none => simp [noTargetKg, hc] at h3
-  | some cur =>
-    rcases exec_trace_single P w rq cur h1 h2 hc e he with ⟨hk, _, role, hrole, hg⟩
-    rw [hid] at hrole
-    cases hrole
-    have := gates_allowed w u r e.stmt cur hg
-    rw [← hk] at this
-    exact this
+  rcases exec_gated P w rq e he with ⟨role, hrole, hg⟩
+  rw [hid] at hrole
+  cases hrole
+  exact gates_allowed w u r e.stmt e.kg hg
 
--- the partial theorem is not vacuous: a single-line insert by an identity with write permission runs,
--- and a single-line insert by the KG viewer is refused (empty trace)
-def witW2 : World :=
+/-- the executed statement is a statement of the program, gated with the running KG: the gates of the
+    pre-pass and the executor agree on statement and KG (`exec_gated`, by induction over the lines) -/
+theorem C27_gates_agree (P : Parser) (w : World) (rq : Req) :
+    ∀ e ∈ (execProgram P w rq).trace, ∃ role, identityOf w rq.user = some role ∧
+      gates w role (some e.stmt) (some e.kg) = none :=
+  exec_gated P w rq
+
+/-! the former counterexamples (now corpus files) are refused without effect -/
+def witP : Parser := fun k =>
+  if k = "+m1(7)" then some ⟨.insert, .insert "m1" [[.i64 7]]⟩
+  else if k = "?m1(X)" then some ⟨.query, .query "m1" 1⟩
+  else if k = ".kg use kga" then some ⟨.kgUse, .name "kga"⟩ else none
+def witW : World :=
   ⟨[⟨"_internal", [("users", [[strVal "vi", strVal "h", strVal "viewer"]]),
-                   ("kg_acls", [[strVal "default", strVal "vi", strVal "editor"]])], [], []⟩,
-    ⟨"default", [("m1", [[.i64 0]])], [], []⟩], []⟩
-example : identityOf witW2 (some "vi") = some (some ("vi", .viewer)) ∧
-    singleLine ⟨some "vi", false, some "default", "+m1(7)".toList⟩ = true ∧
-    sessionQueryWithKgArg witW2 ⟨some "vi", false, some "default", "+m1(7)".toList⟩ = false ∧
-    noTargetKg witW2 ⟨some "vi", false, some "default", "+m1(7)".toList⟩ = false ∧
-    (execProgram witP witW2 ⟨some "vi", false, some "default", "+m1(7)".toList⟩).trace = [⟨⟨.insert, .insert "m1" [[.i64 7]]⟩, "default"⟩] := by decide
-example : (execProgram witP witW ⟨some "vi", false, some "default", "+m1(7)".toList⟩).res = .err "denied-kgviewer" ∧
-    (execProgram witP witW ⟨some "vi", false, some "default", "+m1(7)".toList⟩).trace = [] := by decide
--- each refuting request lies in exactly the excluded class it is named after
-example : singleLine rqUnparsed = false ∧ singleLine rqCommentCut = false ∧
-    sessionQueryWithKgArg witW rqSessionKgArg = true ∧ noTargetKg witW rqNoTarget = true := by decide
+                   ("kg_acls", [[strVal "default", strVal "vi", strVal "viewer"], [strVal "kga", strVal "vi", strVal "editor"]])], [], []⟩,
+    ⟨"default", [("m1", [[.i64 0]])], [], []⟩, ⟨"kga", [("m1", [[.i64 0]])], [], []⟩, ⟨"kgb", [("m1", [[.i64 0]])], [], []⟩],
+   [⟨"vi", "kgb", [], [], false⟩]⟩
+example : (execProgram witP witW ⟨some "vi", false, some "default", "+m1(7)\n?m1(X)".toList⟩).res = .err "denied-kgviewer" ∧
+    (execProgram witP witW ⟨some "vi", false, some "default", "+m1(7)\n?m1(X)".toList⟩).w = witW := by decide
+example : (execProgram witP witW ⟨some "vi", false, some "default", "?m1(X) // hi\n+m1(7)".toList⟩).res = .err "denied-kgviewer" := by decide
+example : (execProgram witP witW ⟨some "vi", true, some "default", "?m1(X)".toList⟩).res = .err "denied-noacl" := by decide   -- session on kgb: gated there
+example : (execProgram witP witW ⟨some "vi", false, none, "+m1(7)".toList⟩).res = .err "denied-kgviewer" := by decide       -- gated on the default KG
+-- the theorem is not vacuous: a permitted multi-statement program with a graph switch runs, in order
+example : identityOf witW (some "vi") = some (some ("vi", .viewer)) ∧
+    (execProgram witP witW ⟨some "vi", false, some "default", "?m1(X)\n.kg use kga\n+m1(7)".toList⟩).trace =
+      [⟨⟨.query, .query "m1" 1⟩, "default"⟩, ⟨⟨.kgUse, .name "kga"⟩, "default"⟩, ⟨⟨.insert, .insert "m1" [[.i64 7]]⟩, "kga"⟩] ∧
+    (findKg (execProgram witP witW ⟨some "vi", false, some "default", "?m1(X)\n.kg use kga\n+m1(7)".toList⟩).w "kga").map (relOf · "m1")
+      = some [[.i64 0], [.i64 7]] := by decide
 
 end ILV.Props.C27
